@@ -449,29 +449,7 @@ func (c *Check) setDecoders(rule string) {
 		}
 		apps := p.callsIn(fn, descIs("builtin:append"))
 		okA := len(apps) == 1 && inLoop(apps[0].Block())
-		// cursor advance by exactly step
-		adv := false
-		for _, blk := range fn.Blocks {
-			for _, in := range blk.Instrs {
-				phi, ok := in.(*ssa.Phi)
-				if !ok {
-					break
-				}
-				if _, isSlice := phi.Type().Underlying().(*types.Slice); !isSlice || !inLoop(blk) {
-					continue
-				}
-				for i, e := range phi.Edges {
-					if !blk.Dominates(blk.Preds[i]) {
-						continue
-					}
-					if sl, isS := e.(*ssa.Slice); isS && sl.X == ssa.Value(phi) && sl.High == nil {
-						if cst, isC := sl.Low.(*ssa.Const); isC && cst.Value != nil && cst.Int64() == s.step {
-							adv = true
-						}
-					}
-				}
-			}
-		}
+		adv := elementLoopAdvance(fn, s.step)
 		// unconditional append: the append's block dominates the back edge
 		c.require(okA && adv, rule, s.fn, "element loop", p.Pos(fn.Pos()), fmt.Sprintf("one unconditional append per %d-octet element, cursor advances by %d", s.step, s.step))
 	}
